@@ -11,6 +11,48 @@ if TYPE_CHECKING:
     from aquacrop.entities.crop import Crop
     from numpy import ndarray
 
+def _depth_after_restrictive_horizons(Zr, Zmin, prof, Soil_nLayer):
+    """
+    Rooting depth reached by a potential rooting depth Zr (>= Zmin) when root expansion below Zmin
+    is slowed down in proportion to the penetrability of the soil horizons it passes through
+    """
+    layeri = 1
+    l_idx = np.argwhere(prof.Layer == layeri).flatten()
+    Zsoil = prof.dz[l_idx].sum()
+    while (round(Zsoil, 2) <= Zmin) and (layeri < Soil_nLayer):
+        layeri = layeri + 1
+        l_idx = np.argwhere(prof.Layer == layeri).flatten()
+        Zsoil = Zsoil + prof.dz[l_idx].sum()
+
+    soil_layer_dz = prof.dz[l_idx].sum()
+    layer_comp = l_idx[0]
+    # soil_layer = prof.Layer[layeri]
+    ZrAdj = Zmin
+    ZrRemain = Zr - Zmin
+    deltaZ = Zsoil - Zmin
+    EndProf = False
+    while EndProf == False:
+        ZrTest = ZrAdj + (ZrRemain * (prof.Penetrability[layer_comp] / 100))
+        if (
+            (layeri == Soil_nLayer)
+            or (prof.Penetrability[layer_comp] == 0)
+            or (ZrTest <= Zsoil)
+        ):
+            ZrOUT = ZrTest
+            EndProf = True
+        else:
+            ZrAdj = Zsoil
+            ZrRemain = ZrRemain - (deltaZ / (prof.Penetrability[layer_comp] / 100))
+            layeri = layeri + 1
+            l_idx = np.argwhere(prof.Layer == layeri).flatten()
+            layer_comp = l_idx[0]
+            soil_layer_dz = prof.dz[l_idx].sum()
+            Zsoil = Zsoil + soil_layer_dz
+            deltaZ = soil_layer_dz
+
+    return ZrOUT
+
+
 def root_development(
     Crop: "Crop",
     prof: "SoilProfile",
@@ -141,42 +183,12 @@ def root_development(
 
         # Adjust expansion rate for presence of restrictive soil horizons
         if Zr > Crop.Zmin:
-            layeri = 1
-            l_idx = np.argwhere(prof.Layer == layeri).flatten()
-            Zsoil = prof.dz[l_idx].sum()
-            while (round(Zsoil, 2) <= Crop.Zmin) and (layeri < Soil_nLayer):
-                layeri = layeri + 1
-                l_idx = np.argwhere(prof.Layer == layeri).flatten()
-                Zsoil = Zsoil + prof.dz[l_idx].sum()
-
-            soil_layer_dz = prof.dz[l_idx].sum()
-            layer_comp = l_idx[0]
-            # soil_layer = prof.Layer[layeri]
-            ZrAdj = Crop.Zmin
-            ZrRemain = Zr - Crop.Zmin
-            deltaZ = Zsoil - Crop.Zmin
-            EndProf = False
-            while EndProf == False:
-                ZrTest = ZrAdj + (ZrRemain * (prof.Penetrability[layer_comp] / 100))
-                if (
-                    (layeri == Soil_nLayer)
-                    or (prof.Penetrability[layer_comp] == 0)
-                    or (ZrTest <= Zsoil)
-                ):
-                    ZrOUT = ZrTest
-                    EndProf = True
-                else:
-                    ZrAdj = Zsoil
-                    ZrRemain = ZrRemain - (deltaZ / (prof.Penetrability[layer_comp] / 100))
-                    layeri = layeri + 1
-                    l_idx = np.argwhere(prof.Layer == layeri).flatten()
-                    layer_comp = l_idx[0]
-                    soil_layer_dz = prof.dz[l_idx].sum()
-                    Zsoil = Zsoil + soil_layer_dz
-                    deltaZ = soil_layer_dz
-
-            # Correct Zr and dZr for effects of restrictive horizons
-            Zr = ZrOUT
+            # Correct Zr and dZr for effects of restrictive horizons: the expansion of the day is the
+            # difference between today's and yesterday's potential depth, both slowed down by the
+            # horizons they pass through (comparing an adjusted depth with an unadjusted one made
+            # the roots shrink every day on soils with a restrictive layer)
+            Zr = _depth_after_restrictive_horizons(Zr, Crop.Zmin, prof, Soil_nLayer)
+            ZrOld = _depth_after_restrictive_horizons(ZrOld, Crop.Zmin, prof, Soil_nLayer)
             dZr = Zr - ZrOld
 
         # Adjust rate of expansion for any stomatal water stress
